@@ -36,6 +36,7 @@ type State struct {
 	env        *object.Environment
 	rootEnv    *object.Environment // same as ancestor of env but used for reset in panic recovery.
 	cache      Cache
+	cacheEpoch int64 // value of the top level environment's CacheEpoch() the cache content is valid for.
 	Extensions object.ExtensionMap
 	NoLog      bool // turn log() into println() (for EvalString)
 	// Max depth / recursion level - default DefaultMaxDepth,
